@@ -18,8 +18,8 @@ func init() {
 	core.Register(&core.Check{
 		ID: "C07", Level: "other", Title: "Merkle proof verifiers are sound",
 		Technique: "hash-input shape extraction (domain tags and operand order), guard dominance with value identity on proof indices, loop-exit conditions, decision table of the position flag",
-		Explain: "Structural necessary conditions on the SSA of package merkle. (Domain separation) hash_leaf and HashLeaf hash 0x00‖data, hash_children and HashChildren hash 0x01‖left‖right (in that operand order); the four agree pairwise and the tags differ, so no leaf pre-image is a node pre-image. (Inclusion) VerifyLeafHashInclusion returns nil only after tree_size > leaf_index, calculate_root_hash_from_audit_path err==nil and calculated == root_hash on its own parameters. calculate_root_hash_from_audit_path: every audit_path[i] read is dominated by i < len(audit_path) on the same SSA value i; the hash is returned only after the level walk ended because last_node reached 0 (no other loop exit) and after pos >= len(audit_path) fails to be '<' (proof too long rejected); the sibling goes left exactly under node_index%2==1 and right under node_index%2!=1 ∧ node_index < last_node; pos advances by exactly one per sibling consumed and both indices are halved on every level. (Consistency) VerifyConsistency: every proof[i] read is dominated by i < len(proof) on the same value; the final nil is dominated by new_hash == new_root, old_hash == old_root and pos == len(proof); the two early nil returns (equal roots; empty old tree) are frozen as accepted by design. (Path proofs) MerkleProve returns the value only after bytes.Equal(fold, root), the fold starts from HashLeaf(value) of the value it returns, each iteration reads flag and sibling under !eof, the sibling goes left exactly when flag==LEFT and right exactly when flag==RIGHT (any other flag must be rejected). NOT decided: that the index arithmetic reconstructs the RFC 6962 tree for every (index, size) — a numeric property; SHA-256 collision resistance is assumed by the property.",
-		Run: runC07,
+		Explain:   "Structural necessary conditions on the SSA of package merkle. (Domain separation) hash_leaf and HashLeaf hash 0x00‖data, hash_children and HashChildren hash 0x01‖left‖right (in that operand order); the four agree pairwise and the tags differ, so no leaf pre-image is a node pre-image. (Inclusion) VerifyLeafHashInclusion returns nil only after tree_size > leaf_index, calculate_root_hash_from_audit_path err==nil and calculated == root_hash on its own parameters. calculate_root_hash_from_audit_path: every audit_path[i] read is dominated by i < len(audit_path) on the same SSA value i; the hash is returned only after the level walk ended because last_node reached 0 (no other loop exit) and after pos >= len(audit_path) fails to be '<' (proof too long rejected); the sibling goes left exactly under node_index%2==1 and right under node_index%2!=1 ∧ node_index < last_node; pos advances by exactly one per sibling consumed and both indices are halved on every level. (Consistency) VerifyConsistency: every proof[i] read is dominated by i < len(proof) on the same value; the final nil is dominated by new_hash == new_root, old_hash == old_root and pos == len(proof); the two early nil returns (equal roots; empty old tree) are frozen as accepted by design. (Path proofs) MerkleProve returns the value only after bytes.Equal(fold, root), the fold starts from HashLeaf(value) of the value it returns, each iteration reads flag and sibling under !eof, the sibling goes left exactly when flag==LEFT and right exactly when flag==RIGHT (any other flag must be rejected). NOT decided: that the index arithmetic reconstructs the RFC 6962 tree for every (index, size) — a numeric property; SHA-256 collision resistance is assumed by the property.",
+		Run:       runC07,
 	})
 }
 
@@ -137,6 +137,13 @@ func runC07(c *core.Ctx) {
 			return
 		}
 		tag, ops, ok := hashShape(fn)
+		if !ok {
+			// a pure delegate (`return HashLeaf(data)`): the shape is the delegate's, with the
+			// parameters passed through in order
+			if d := pureDelegate(fn); d != nil {
+				tag, ops, ok = hashShape(d)
+			}
+		}
 		if !ok {
 			c.Broken("C07.domain-separation", fn, "sha256.Sum256(tag ‖ operands)", c.P.Rel(fn.Pos()), "shape not recognised")
 			return
@@ -343,7 +350,7 @@ func runC07(c *core.Ctx) {
 		final1 := relGuard("new_hash == new_root", isHashPhi("new_hash"), is(newRoot), token.EQL)
 		final2 := relGuard("old_hash == old_root", isHashPhi("old_hash"), is(oldRoot), token.EQL)
 		final3 := relGuard("pos == len(proof)", isHashPhi("pos"), isLenOfParam(pp), token.EQL)
-		c.Floor("nil returns of VerifyConsistency", len(succ), 3)
+		c.Floor("nil returns of VerifyConsistency", len(succ), 2)
 		nEarly, nFinal := 0, 0
 		for _, s := range succ {
 			one := []ir.Sink{s}
@@ -354,6 +361,10 @@ func runC07(c *core.Ctx) {
 			case quietDominates(fn, early2, s):
 				nEarly++
 				c.Hold("C07.consistency", fn, "early nil: empty old tree (accepted by design)", c.P.Rel(s.Instr.Pos()), "")
+			case quietDominates(fn, eng.NamedGuard{Name: "old_root == new_root ∨ old_size == 0", G: ir.Or(early1.G, early2.G)}, s):
+				// the two trivial cases written as one `||` test
+				nEarly += 2
+				c.Hold("C07.consistency", fn, "early nil: identical roots or empty old tree (accepted by design)", c.P.Rel(s.Instr.Pos()), "")
 			default:
 				nFinal++
 				eng.Dominates(c, "C07.consistency", fn, final1, one, "final nil return", nil)
@@ -361,7 +372,7 @@ func runC07(c *core.Ctx) {
 				eng.Dominates(c, "C07.consistency", fn, final3, one, "final nil return", nil)
 			}
 		}
-		c.Decide(nEarly == 2 && nFinal == 1, "C07.consistency", fn, "nil is returned at exactly the two frozen early exits and the fully checked end", c.P.Rel(fn.Pos()), sprintf("%d early, %d final", nEarly, nFinal))
+		c.Decide(nEarly <= 2 && nFinal >= 1, "C07.consistency", fn, "nil is returned only in the two trivial cases (identical roots, empty old tree) and at the fully checked end", c.P.Rel(fn.Pos()), sprintf("%d early, %d final", nEarly, nFinal))
 		eng.Dominates(c, "C07.consistency", fn, relGuard("old_size <= new_size", is(paramByName(fn, "old_tree_size")), is(paramByName(fn, "new_tree_size")), token.LEQ), succ, "nil return", nil)
 	}
 
